@@ -288,7 +288,11 @@ class ANSI (term):
     def process (self, c):
         """Process a single character. Called by :meth:`write`."""
         if isinstance(c, bytes):
-            c = self._decode(c)
+            # A byte may be only part of a character (nothing to process
+            # yet) or complete one that an earlier call began.
+            for ch in self._decode(c):
+                self.state.process(ch)
+            return
         self.state.process(c)
 
     def process_list (self, l):
